@@ -5,7 +5,6 @@ package main
 import (
 	"bytes"
 	"context"
-	"encoding/json"
 	"fmt"
 	"math"
 	"strconv"
@@ -464,13 +463,13 @@ func c16E2ERun(r *vkit.Run, one func(fn func(), nontrivial bool)) {
 func c16Replay(r *vkit.Run, v vkit.Violation) *vkit.Violation {
 	if v.Check == "C16/e2e" {
 		var in c16E2EInput
-		if err := json.Unmarshal(v.Input, &in); err != nil {
+		if err := vkit.DecodeInput(v, &in); err != nil {
 			r.HarnessError("bad input: %v", err)
 		}
 		return vkit.ReplayOne(r, func() { c16E2ECheck(r, in) })
 	}
 	var in c16Input
-	if err := json.Unmarshal(v.Input, &in); err != nil {
+	if err := vkit.DecodeInput(v, &in); err != nil {
 		r.HarnessError("bad input: %v", err)
 	}
 	return vkit.ReplayOne(r, func() { c16Check(r, in) })
